@@ -238,11 +238,21 @@ pub fn check_share(api: &str, t: &Type, secret: &Value, dealer_seed: u64, lost: 
 pub fn distribution_check(seed: u64, n: usize, counters: &mut BTreeMap<String, u64>) -> Option<(String, String)> {
     let es = crate::dsl::es;
     let mut rng = Rng::new(seed ^ 0xD157);
-    let configs: Vec<(ScalarType, &str)> = vec![(UINT8, "get_local_shares_for_each_party"), (UINT64, "secret_share_for_parties"), (BIT, "get_local_shares_for_each_party"), (UINT8, "secret_share_for_parties"), (UINT8, "share_vector")];
-    for (st, api) in configs {
-        let t = if st == BIT { array_type(vec![8], BIT) } else if api == "share_vector" { array_type(vec![1], st) } else { scalar_type(st) };
-        let secret_a = enc(&vec![0u128; if st == BIT { 8 } else { 1 }], st);
-        let secret_b = if st == BIT { enc(&[1, 0, 1, 1, 0, 1, 1, 1], st) } else { enc(&[0xA7u128], st) };
+    // (scalar type, api, number of bits for bit arrays): the last two are bit arrays that end inside a byte - their
+    // first byte is a full byte and must be as uniform as any other (the generator clears padding bits of the last byte only)
+    let configs: Vec<(ScalarType, &str, u64)> = vec![
+        (UINT8, "get_local_shares_for_each_party", 0),
+        (UINT64, "secret_share_for_parties", 0),
+        (BIT, "get_local_shares_for_each_party", 8),
+        (UINT8, "secret_share_for_parties", 0),
+        (UINT8, "share_vector", 0),
+        (BIT, "get_local_shares_for_each_party", 13),
+        (BIT, "secret_share_for_parties", 27),
+    ];
+    for (st, api, nbits) in configs {
+        let t = if st == BIT { array_type(vec![nbits], BIT) } else if api == "share_vector" { array_type(vec![1], st) } else { scalar_type(st) };
+        let secret_a = enc(&vec![0u128; if st == BIT { nbits as usize } else { 1 }], st);
+        let secret_b = if st == BIT { enc(&(0..nbits).map(|i| [1u128, 0, 1, 1, 0, 1, 1, 1][(i % 8) as usize]).collect::<Vec<u128>>(), st) } else { enc(&[0xA7u128], st) };
         for p in 0..3usize {
             // projections: low byte of each held share and their sum (catches "third share also held" / "shares not masked")
             let mut hist: Vec<Vec<Vec<u64>>> = vec![vec![vec![0u64; 256]; 3]; 2];
